@@ -59,7 +59,11 @@ LaMat == Mat9(LAMBDA a, b : D(Hi(a), Lo(a)) * D(Hi(b), Lo(b)))
 \* basis matrix of the additional constitutive parameter used by the harness (symmetric, with minor symmetries):
 \* coupling of the 11 and 22 normal components
 ExtraMat == Mat9(LAMBDA a, b : IF (a = 1 /\ b = 5) \/ (a = 5 /\ b = 1) THEN 1 ELSE 0)
-Fourth(mu, la, phi) == Mat9(LAMBDA a, b : mu * MuMat[a][b] + la * LaMat[a][b] + phi * ExtraMat[a][b])
+\* (entry formulas written out: MuMat, LaMat, ExtraMat above are the same matrices, as the code stores them)
+Fourth(mu, la, phi) ==
+  Mat9(LAMBDA a, b : mu * (D(Hi(a), Hi(b)) * D(Lo(a), Lo(b)) + D(Hi(a), Lo(b)) * D(Lo(a), Hi(b)))
+                     + la * (D(Hi(a), Lo(a)) * D(Hi(b), Lo(b)))
+                     + phi * (IF (a = 1 /\ b = 5) \/ (a = 5 /\ b = 1) THEN 1 ELSE 0))
 Sym9(M) == \A a \in I9, b \in I9 : M[a][b] = M[b][a]
 MinorSym(M) == \A i \in 0..2, j \in 0..2, b \in I9 :
                  M[Flat(i, j)][b] = M[Flat(j, i)][b] /\ M[b][Flat(i, j)] = M[b][Flat(j, i)]
@@ -76,7 +80,9 @@ LawInvariantsOf(K, Rn, rq) ==
   IN Tr(N) = q2 * Tr(K) /\ I2(N) = q2 * q2 * I2(K) /\ Det(N) = q2 * q2 * q2 * Det(K) /\ Sym3(N)
 
 \* rotation catalogue: signed permutations (exact in floating point) and genuinely rational rotations
-SignedPerms == {Rn \in [I3 -> [I3 -> {-1, 0, 1}]] : IsRotation(Rn, 1)}
+SignedPermOf(sigma, sg) == Mat3(LAMBDA i, j : IF j = sigma[i] THEN sg[i] ELSE 0)
+SignedPerms == {Rn \in {SignedPermOf(sigma, sg) : sigma \in {f \in [I3 -> I3] : \A i, j \in I3 : i # j => f[i] # f[j]},
+                                                   sg \in [I3 -> {-1, 1}]} : IsRotation(Rn, 1)}
 AxisRot(ax, c, s, q) ==
   CASE ax = 1 -> <<<<q, 0, 0>>, <<0, c, -s>>, <<0, s, c>>>>
     [] ax = 2 -> <<<<c, 0, s>>, <<0, q, 0>>, <<-s, 0, c>>>>
